@@ -77,7 +77,7 @@ def run(ctx):
         b = broken[0]
         ctx.report(f"broken:{b.what}", b.what, {"unchecked": b.what, "detail": b.detail[-3000:]}, found_input=False)
     ctx.sample({"triples": triples[:6]})
-    ctx.sample({"relocation_targets": ["nested", "unicode", "blank", "non_nfc", "odd_names", "relative", "dotdot", "moved"]})
+    ctx.sample({"relocation_targets": ["nested", "unicode", "blank", "non_nfc", "odd_names", "relative", "relative_then_chdir", "dotdot", "moved"]})
     ctx.coverage.update({
         "obligations": proof["obligations"] if proof else 4, "discharged": proof["discharged"] if proof else 0,
         "theorems": proof["theorems"] if proof else [],
